@@ -127,8 +127,9 @@ func (x *Exec) callValue(st *State, fv SVal, sig *types.Signature, args []SVal, 
 	rs := sig.Results()
 	for i := 0; i < rs.Len(); i++ {
 		t := x.D.app(fmt.Sprintf("%s!%d", short, i), ats, asorts, sortOf(rs.At(i).Type()))
-		if isContextType(rs.At(i).Type()) {
-			// T5: a context-aware user callback returns a (derived) non-nil context
+		if isContextType(rs.At(i).Type()) || hasMethod(rs.At(i).Type(), "SubscribeWithContext") {
+			// T5: a context-aware user callback returns a (derived) non-nil context; a user-supplied factory
+			// or projection returns an observable / subject, not nil
 			st.assume(not(eq(t, "nil")))
 		}
 		res = append(res, x.unbox(st, t, rs.At(i).Type()))
